@@ -1,0 +1,105 @@
+//go:build verif
+// +build verif
+
+package proxy
+
+// Thin wrappers that expose unexported functions and fields to the verification harness
+// (/verif/harness). Built only with -tags verif. No logic lives here.
+
+import (
+	"net/http"
+	"net/url"
+
+	apexlog "github.com/apex/log"
+
+	"github.com/richiefi/rrrouter/config"
+)
+
+type VerifRuleView struct {
+	Enabled           bool
+	Scheme            string
+	Host              string
+	Path              string
+	Wci               []int
+	Dest              string
+	Internal          bool
+	Methods           map[string]bool
+	IsCopy            bool
+	Recompression     bool
+	HostHeader        HostHeader
+	CacheId           string
+	ForceRevalidate   int
+	RequestHeaders    map[string]*string
+	ResponseHeaders   map[string]string
+	RestartOnRedirect bool
+	RetryRule         *Rule
+}
+
+func VerifView(r *Rule) VerifRuleView {
+	return VerifRuleView{r.enabled, r.scheme, r.host, r.path, r.wci, r.dest, r.internal, r.methods,
+		r.ruleType == ruleTypeCopy, r.recompression, r.hostHeader, r.cacheId, r.forceRevalidate,
+		r.requestHeaders, r.responseHeaders, r.restartOnRedirect, r.retryRule}
+}
+
+func VerifRulePtrs(rs *Rules) []*Rule { return rs.rules }
+
+func VerifAttemptMatch(r *Rule, scheme, host, uri string) (*string, error) {
+	return r.attemptMatch(scheme, host, uri)
+}
+
+// VerifMatch returns the indices (in rs) and targets of the proxy and copy matches, -1 when nil.
+func VerifMatch(rs *Rules, s, method string) (pi int, pt string, ci int, ct string, err error) {
+	res, err := rs.Match(s, method)
+	pi, ci = -1, -1
+	if err != nil {
+		return
+	}
+	for i, r := range rs.rules {
+		if res.proxyMatch != nil && res.proxyMatch.rule == r {
+			pi, pt = i, res.proxyMatch.target
+		}
+		if res.copyMatch != nil && res.copyMatch.rule == r {
+			ci, ct = i, res.copyMatch.target
+		}
+	}
+	return
+}
+
+func VerifCompleteURL(req *http.Request) *url.URL                 { return completeURL(req) }
+func VerifScheme(req *http.Request) string                        { return scheme(req) }
+func VerifDestinationString(u *url.URL) string                    { return destinationString(u) }
+func VerifCanTransform(cc string) bool                            { return canTransform(cc) }
+func VerifRetryable(req *http.Request) bool                       { return retryable(req) }
+func VerifIs4xxError(s int) bool                                  { return is4xxError(s) }
+func VerifFilterHeader(h http.Header, names []string) http.Header { return filterHeader(h, names) }
+
+func VerifEnsureInternalHeaders(header http.Header, passHeaders bool, secrets []string, readIP func() string) error {
+	return ensureInternalHeaders(header, passHeaders, secrets, readIP)
+}
+
+type VerifURLMatch struct {
+	URL      *url.URL
+	Rule     *Rule
+	CopyURL  *url.URL
+	CopyRule *Rule
+}
+
+func verifRouter(rs *Rules, conf *config.Config) *router {
+	return &router{rules: rs, logger: &apexlog.Logger{Handler: verifDiscard{}, Level: apexlog.FatalLevel}, config: conf}
+}
+
+type verifDiscard struct{}
+
+func (verifDiscard) HandleLog(*apexlog.Entry) error { return nil }
+
+func VerifCreateOutgoingURLs(rs *Rules, conf *config.Config, sourceURL *url.URL, method string) (*VerifURLMatch, error) {
+	um, err := verifRouter(rs, conf).createOutgoingURLs(sourceURL, method, nil)
+	if err != nil || um == nil {
+		return nil, err
+	}
+	return &VerifURLMatch{um.url, um.rule, um.copyURL, um.copyRule}, nil
+}
+
+func VerifCreateProxyRequest(rs *Rules, conf *config.Config, req *http.Request, internal bool, hostHeader HostHeader, u *url.URL) (*http.Request, error) {
+	return verifRouter(rs, conf).createProxyRequest(req, internal, hostHeader, u)
+}
